@@ -1,7 +1,7 @@
 (* C09 — attack-graph structure and lookup indexes stay consistent in any history.
    Statements only; proofs are in theories/GraphInv.v (invariant WF, preserved by every operation) and GraphThm.v.
    `final ops` = state after ANY finite list of GraphOps operations from the empty world (see C11.v). *)
-From MT Require Import Prelude Graph Apriori GraphAn GraphOps GraphInv GraphThm.
+From MT Require Import Prelude Graph Apriori GraphAn GraphOps GraphInv GraphThm GraphMirror.
 
 (* every child / parent reference points into the graph and is mirrored by the converse reference *)
 Theorem C09_children : forall ops p c,
@@ -56,6 +56,16 @@ Theorem C09_attacker_refs : forall ops,
   (forall o a, In o (g_nodes (s_g s)) -> In a (n_comp (s_nh s o)) -> In a (g_atts (s_g s))).
 Proof. intros ops. exact (conj (wf_attacker_refs _ (reachable_WF ops)) (wf_node_attackers _ (reachable_WF ops))). Qed.
 Print Assumptions C09_attacker_refs.
+(* ... for histories that use the API as intended (GraphOps.guard); for add_attacker that means ids of nodes of the graph, and
+   this part of the guard cannot be dropped: given the id of a node followed by an id that no node has, add_attacker is
+   rejected after the first node was compromised, and that node of the graph then lists an attacker that is not in the
+   graph (the implementation does the same: the histories ending with add_attacker calls taken as they are, C11 check) *)
+Theorem C09_add_attacker_guard_needed : exists ops adds,
+  let '(s, outs, ocs) := run_then_adds ops adds in
+  forallb (fun p => outcome_eqb (fst p) Ok) outs = true /\ ocs = [RGraphException] /\
+  exists o a, In o (g_nodes (s_g s)) /\ In a (n_comp (s_nh s o)) /\ ~ In a (g_atts (s_g s)).
+Proof. exact add_attacker_guard_needed. Qed.
+Print Assumptions C09_add_attacker_guard_needed.
 
 (* the whole invariant, for the record (it is what the statements above are projections of) *)
 Theorem C09_wf_reachable : forall ops, WF (final ops).
